@@ -8,6 +8,7 @@ import json, hashlib
 from hypothesis import strategies as st
 
 from .script import Exec, Tracker, is_ref
+from .known import check_known
 
 APPS = ["A", "B", "app/é"]
 SIDES = ["s1", "s2", "s3", "s4"]
@@ -20,7 +21,7 @@ DTS = [0, 0.25, 1, 59.5, 60, 299, 300, 301, 359, 360, 361, 659, 660, 661, 900]
 
 KINDS = ["flow_step", "flow_new", "conn", "claim", "open", "add", "close", "release", "alloc", "list",
          "drop", "reconn", "adv", "restart", "ping", "rawconn", "claim_open",
-         "bad", "resend", "longadv", "faultadv", "fill"]
+         "bad", "resend", "longadv", "faultadv", "fill", "faultadv2"]
 
 
 class Profile(object):
@@ -56,7 +57,7 @@ class Profile(object):
 
 BASE_W = dict(flow_step=24, flow_new=4, conn=2, claim=3, open=3, add=4, close=3, release=2, alloc=1, list=1,
               drop=2, reconn=3, adv=3, restart=1, ping=0, rawconn=0, claim_open=1,
-              bad=0, resend=0, longadv=0, faultadv=0, fill=0)
+              bad=0, resend=0, longadv=0, faultadv=0, fill=0, faultadv2=0)
 
 
 def W(**kw):
@@ -70,18 +71,20 @@ PROFILES = {
     "replay": Profile("replay", W(add=9, open=7, reconn=4, restart=2, longadv=1), napps=2, nmail=2),
     "fanout": Profile("fanout", W(add=10, open=8, conn=8, claim=2, alloc=0, release=1, restart=3, adv=5), napps=1, nsides=3, nmail=2, nnames=2, forged=True),
     "claims": Profile("claims", W(claim=10, claim_open=2, release=5, close=4, add=1, open=2, restart=2, longadv=1), napps=2, nnames=3),
-    "crowd": Profile("crowd", W(claim=8, open=7, close=4, release=3, add=4, reconn=4, conn=8, alloc=0), napps=1, nsides=4, nnames=1, nmail=1),
+    "crowd": Profile("crowd", W(claim=8, open=7, close=4, release=3, add=4, reconn=4, conn=8, alloc=0, longadv=2, adv=2), napps=1, nsides=4, nnames=1, nmail=1),
     "holders": Profile("holders", W(claim=9, release=7, list=4, close=3, alloc=3, open=2, add=1, restart=1), napps=1, nsides=2, nnames=3),
     "closers": Profile("closers", W(close=8, open=6, claim=5, claim_open=4, release=3, add=4, reconn=4, resend=3), napps=1, nsides=2, nnames=2, nmail=2),
-    "clock": Profile("clock", W(adv=9, add=5, open=5, claim=4, drop=4, reconn=3, restart=1, alloc=1), napps=2, nnames=2, nmail=2),
+    "clock": Profile("clock", W(adv=9, add=5, open=5, claim=4, drop=4, reconn=3, restart=1, alloc=1, faultadv2=1), napps=2, nnames=2, nmail=2),
     "hostile": Profile("hostile", W(bad=14, rawconn=2, ping=2, conn=6), napps=2),
+    "hostile_crowd": Profile("hostile_crowd", W(bad=12, claim=8, release=4, conn=8, reconn=3, flow_step=12), napps=1, nsides=4, nnames=1, nmail=1),
     "usage": Profile("usage", W(close=7, release=5, adv=3, longadv=2, claim=6, claim_open=4), napps=2, nsides=4, nnames=2, nmail=2),
-    "sweeper": Profile("sweeper", W(adv=5, longadv=3, faultadv=3, close=4, add=5, reconn=3, restart=1, resend=1), napps=3, nsides=3, nnames=2, nmail=2),
+    "sweeper": Profile("sweeper", W(adv=5, longadv=3, faultadv=3, faultadv2=1, close=4, add=5, reconn=3, restart=1, resend=1), napps=3, nsides=3, nnames=2, nmail=2),
     "blurry": Profile("blurry", W(adv=4, longadv=2, close=6, release=5, claim=5, claim_open=3, conn=4), napps=2, nsides=3, nnames=2, nmail=2),
     "restarts": Profile("restarts", W(restart=4, adv=5, longadv=1, reconn=4), napps=2, nsides=3, nnames=2, nmail=2, rephase=True),
     "dups": Profile("dups", W(resend=8, adv=3, restart=1, close=4, release=3), napps=1, nsides=3, nnames=2, nmail=2, dup=True),
     "alloc": Profile("alloc", W(fill=10, alloc=14, release=6, claim=4, close=3, flow_step=8, flow_new=2, longadv=1, adv=2, conn=6), napps=2, nsides=3, nnames=5, nmail=2),
-    "twoapps": Profile("twoapps", W(close=5, release=4, adv=3, longadv=1, restart=1), napps=2, nsides=2, nnames=2, nmail=2),
+    "shared": Profile("shared", W(open=8, add=8, close=5, claim=2, flow_step=10, reconn=4, restart=2, adv=2, longadv=1), napps=2, nsides=2, nnames=2, nmail=1, cross_app_mailbox=True),
+    "twoapps": Profile("twoapps", W(close=5, release=4, adv=3, longadv=1, restart=1, faultadv=1, faultadv2=3), napps=2, nsides=2, nnames=2, nmail=2),
 }
 
 
@@ -268,6 +271,8 @@ class Driver(object):
         st = self.ex.run_op(op)
         if self.w.crashed:
             return st
+        if self.p.cross_app_mailbox:
+            check_known(st)
         self.tr.update(op, st, j)
         # subscription ends with the mailbox (observed through the reader)
         if st.after is not None:
@@ -416,6 +421,10 @@ class Driver(object):
         if kind == "fill":
             self.fill(a, b, c, m)
             return
+        if kind == "faultadv2":
+            # three consecutive sweeps fail at their first database access
+            self.do({"op": "advance", "dt": 900.0 + b, "fault": [0, 1, 2]})
+            return
         if kind == "faultadv":
             # the first database access of the next sweep fails transiently
             self.do({"op": "advance", "dt": 300.0 + (a % 2) * 300.0 + b, "fault": [0]})
@@ -436,6 +445,8 @@ class Driver(object):
             cs = self.pick_conn(a, lambda x: x.holds)
         elif kind == "close":
             cs = self.pick_conn(a, lambda x: x.bound and not x.close_done)
+        elif kind == "bad" and b % 16 == 3 and c % 5 == 2:
+            cs = self.pick_conn(a, lambda x: x.claim_refused)
         elif kind in ("drop", "reconn", "ping", "bad", "resend"):
             cs = self.pick_conn(a)
         if cs is None:
